@@ -126,6 +126,11 @@ def read_policy_from_file(path):
             result[name] = {'preset': policy}
         else:
             invalid_sections = sections - policy_sections - object_types
+            if len(invalid_sections) == 0:
+                raise ValueError(
+                    "Policy '{}' mixes the preset/groups sections with object "
+                    "type sections.".format(name)
+                )
             raise ValueError(
                 "Policy '{}' contains an invalid section named: "
                 "{}".format(name, invalid_sections.pop())
